@@ -204,6 +204,7 @@ class Sweep:
         self.refusal_types = {}
         self.per_class = {}
         self.n = 0
+        self.repeated = 0
 
     def judge(self, obj, cname, path, value, frame, others):
         """Encode `obj`; refusal or equal round trip. Returns 'refused' | 'ok' | 'bad'."""
@@ -218,7 +219,24 @@ class Sweep:
             self.fps.add((cname, path, "refused", key))
             return "refused"
         stats["encoded"] += 1
+        returned = enc
         enc = bytes(enc)
+        # encoder state: overwrite the returned buffer (CEMILData.to_knx() writes the TPCI bits into it) and encode again
+        if isinstance(returned, bytearray) and returned:
+            returned[0] |= 0xFC
+            returned[-1] ^= 0xFF
+        try:
+            again = bytes(obj.to_knx())
+        except Exception as exc:  # noqa: BLE001
+            again = repr(exc).encode()
+        if again != enc:
+            self.ctx.violation(
+                f"{cname}-encoding-not-repeatable",
+                {"class": cname, "field": path, "value": pack_value(value), "baseline_frame": frame.hex(),
+                 "other_fields": {p: pack_value(v) for p, v in others.items()}, "first": enc.hex(), "second": again.hex()},
+                f"{cname}: the same object encodes to {enc[:24].hex()} and, after the caller wrote into the returned bytearray, to {again[:24].hex()}",
+            )
+        self.repeated += 1
         wit = {
             "class": cname, "field": path, "value": pack_value(value), "baseline_frame": frame.hex(),
             "other_fields": {p: pack_value(v) for p, v in others.items()}, "object": str(obj)[:300], "encoded": enc.hex(),
@@ -247,6 +265,7 @@ class Sweep:
         ctx.ev(self.n)
         ctx.count("objects_encoded", sum(s["encoded"] for s in self.per_class.values()))
         ctx.count("objects_refused", sum(s["refused"] for s in self.per_class.values()))
+        ctx.count("second_encoding_after_buffer_mutation_compared", self.repeated)
         ctx.extra["encoded_per_class"] = {k: v["encoded"] for k, v in sorted(self.per_class.items())}
         ctx.extra["refused_per_class"] = {k: v["refused"] for k, v in sorted(self.per_class.items())}
         ctx.extra["refusal_exception_types"] = dict(sorted(self.refusal_types.items()))
